@@ -40,6 +40,7 @@ from typing_extensions import (
     NoDefault,
     ParamSpec,
     TypedDict,
+    Unpack,
     get_args,
     get_origin,
 )
@@ -413,6 +414,12 @@ def _type_from_runtime(
     origin = get_origin(val)
     if origin is not None:
         args = get_args(val)
+        if getattr(val, "__unpacked__", False) is True:
+            # PEP 646: *tuple[int, str] means the same as Unpack[tuple[int, str]]
+            if not allow_unpack:
+                ctx.show_error("Invalid usage of Unpack")
+                return AnyValue(AnySource.error)
+            return UnpackedValue(_value_of_origin_args(origin, args, val, ctx))
         return _value_of_origin_args(
             origin, args, val, ctx, allow_unpack=allow_unpack, is_typeddict=is_typeddict
         )
@@ -664,13 +671,19 @@ def _eval_forward_ref(
     val: str, ctx: Context, *, is_typeddict: bool = False, allow_unpack: bool = False
 ) -> Value:
     try:
-        tree = ast.parse(val, mode="eval")
+        if val.startswith("*"):
+            # "*tuple[int, str]" (PEP 646) is not an expression on its own
+            tree = ast.parse(f"({val},)", mode="eval")
+            assert isinstance(tree.body, ast.Tuple)
+            node = tree.body.elts[0]
+        else:
+            node = ast.parse(val, mode="eval").body
     except SyntaxError:
         ctx.show_error(f"Syntax error in type annotation: {val}")
         return AnyValue(AnySource.error)
     else:
         return _type_from_ast(
-            tree.body, ctx, is_typeddict=is_typeddict, allow_unpack=allow_unpack
+            node, ctx, is_typeddict=is_typeddict, allow_unpack=allow_unpack
         )
 
 
@@ -1018,6 +1031,10 @@ class _Visitor(ast.NodeVisitor):
 
     def visit_Constant(self, node: ast.Constant) -> Value:
         return KnownValue(node.value)
+
+    def visit_Starred(self, node: ast.Starred) -> Value:
+        # PEP 646: *tuple[int, str] means the same as Unpack[tuple[int, str]]
+        return _SubscriptedValue(KnownValue(Unpack), (self.visit(node.value),))
 
     def visit_Expr(self, node: ast.Expr) -> Value:
         return self.visit(node.value)
